@@ -672,6 +672,7 @@ META = {
             "permutations of each BGP, every operand swap, every variable permutation, three prefix tables, initBindings vs VALUES) and evaluated on a graph family; one "
             "prepared query object is driven through every sequence of up to three evaluations over three graphs and compared with fresh parses; the same data is "
             "queried through both in-memory stores, the auditable wrapper and a read-only aggregate over every 2-partition. Multisets of solutions must coincide.",
-    "note": "No reference evaluator is involved (C04 covers conformance); small scope: <=1-2 operators, 12 graphs with <=5 triples; disjoint partitions only.",
+    "note": "No reference evaluator is involved (C04 covers conformance); small scope: <=1-2 operators, 12 graphs with <=5 triples; disjoint partitions only. Stores: all 12 bound/unbound shapes of a triple pattern + 3 pushed-join shapes on every graph of <=3 triples over {a,b}x{p,q}x{a,b}; "
+            "prepared queries with solution modifiers: every sequence of <=4 evaluations over 3 graphs, answers compared as sequences.",
     "technique": "exhaustive enumeration of semantics-preserving rewritings, evaluation sequences and store configurations with a differential oracle",
 }
